@@ -21,6 +21,14 @@ CLAIMED = {
         design="DESIGN.md section 2, C02",
         technique="symbolic execution of the real functions on z3-real object arrays; polynomial-identity validity queries (z3)",
     ),
+    "C12": dict(
+        text="Every branch of each proximal/projection operator is executed symbolically (sorts and comparisons fork the path, clips merge into If-terms) on vectors "
+        "and n x 2 matrices of solver variables with a symbolic positive parameter; the returned point is checked against the KKT / nearest-point "
+        "characterisation of the operator's prox problem (linear for polyhedral sets, root atoms for l2 norms, closer-competitor query for the non-convex "
+        "unimodal set), plus idempotence on feasible inputs and firm non-expansiveness with two symbolic inputs. Bounded to n <= 4 (5 thorough).",
+        design="DESIGN.md section 2, C12",
+        technique="path-forking symbolic execution + KKT-oracle validity queries in LRA/NRA (z3)",
+    ),
 }
 
 NOT_APPLICABLE = {
